@@ -61,6 +61,11 @@ func vfLocksHeld() int { return 0 }
 // directive embeds (the engine cannot see embedded files); no-op natively.
 func vfEmbedRoot(dir string, pattern string) {}
 
+// vfOSRoot switches on the engine's model of the read-only part of package os (Stat,
+// Open, ReadFile, File.Read/Stat/Close): names are resolved against the real directory
+// tree below root (relative names against cwd); no-op natively, where the real os answers.
+func vfOSRoot(root string, cwd string) {}
+
 // vfSymbolic reports whether the harness runs inside the engine.
 func vfSymbolic() bool { return false }
 
